@@ -54,6 +54,7 @@ package breaker
 //@   observe Rejected = rejected
 //@   observe HasFallback = fallback != nil
 //@   observe ReqPanics = panicked(req)
+//@   observe PanicNil = panicnil(req)
 //@   observe Acceptable = calls(acceptable) == 1 && ret(acceptable)
 //@   replay breaker_doReq
 //@   ensures [rejected-never-runs] rejected ==> calls(req) == 0 && calls(markSuccess) + calls(markFailure) == 0 && calls(acceptable) == 0
